@@ -30,7 +30,7 @@ def fmtRun (c0 : Interp.Ctr) : Option (Except Err (Nat Ã— Val Ã— Interp.Ctr)) â†
 
 def standardOpMap : List (String Ã— Bytes) :=
   (Gen.fTableNames.filterMap (fun (name, fn) =>
-    (Gen.chiaOpTable.find? (fun e => e.2.1 == fn)).map (fun e => (name, [UInt8.ofNat e.1]))))
+    (Gen.chiaOpTable.find? (fun e => e.2.1 == fn && e.2.2 == 0)).map (fun e => (name, [UInt8.ofNat e.1]))))
 
 /-- `RUN <dialect> <flags> <budget> <headroom|-> <prog> <env> [tags]` -/
 def handleRunWith (cfg : Cfg) (extra : String â†’ Option OpFn) (args : List String) : Option String :=
